@@ -545,3 +545,11 @@ def m_wrapping_divrem(I, st, fr, args, path, gargs, t):
     if st.in_range(q.p, rlo, rhi) is True:
         return q
     return st.fresh(ty, tag='wrapdiv')
+
+
+_INHERIT = re.compile(r'^(<' + INT + r' as core::ops::(Add|Sub|Mul|Neg|Shl|Shr|AddAssign|SubAssign|MulAssign)>::\w+|core::num::<impl ' + INT + r'>::(abs|pow|next_power_of_two|isqrt|ilog|ilog2|ilog10|strict_\w+))$')
+
+
+def is_inherit_overflow(path):
+    """core functions carrying #[rustc_inherit_overflow_checks]: they panic on overflow only if the *calling crate* is built with overflow checks"""
+    return bool(_INHERIT.match(path or ''))
